@@ -138,6 +138,7 @@ func Observe(s string) {
 }
 func Observef(format string, a ...any) { Observe(fmt.Sprintf(format, a...)) }
 
+func Freeze()                     {}
 func BlockedNow() []BlockedG      { return nil }
 func LiveNamed(prefix string) int { return 0 }
 
